@@ -12,6 +12,7 @@ import (
 	"strings"
 	"sync"
 	"testing"
+	"time"
 )
 
 func (r *engRun) pickTarget(biasLast bool) int {
@@ -303,6 +304,37 @@ func runEngHistory(t *testing.T, self string, base string, seed int64, index int
 					}
 					if !hasAlways && len(o2.Ran) != 0 {
 						r.oracle("C02 rebuilding the unchanged tree executed %v", o2.Ran)
+					}
+					if !hasAlways && len(o2.Ran) == 0 && o2.Kind == "build" && o2.OK {
+						// C02: comment / whitespace edits of the build files of the closure (every definition below them moves),
+						// a same-content rewrite and a timestamp change of its sources execute nothing either
+						var ids []int
+						for id := range r.closure(label) {
+							ids = append(ids, id)
+						}
+						sort.Ints(ids)
+						for _, id := range ids {
+							if rng.Intn(2) == 0 {
+								r.p.Targets[id].Cosmetic++
+							}
+						}
+						r.p.Targets[ids[0]].Cosmetic++
+						r.emitProj("cosmetic edits in the closure")
+						for _, id := range ids {
+							for _, sid := range r.p.Targets[id].Srcs {
+								sp := r.p.Sources[sid]
+								if lit, ok := r.litOf[sp.Path]; ok && lit != 0 && sp.Dir == nil {
+									f := filepath.Join(r.root, r.p.Paths[sp.Path])
+									os.WriteFile(f, []byte(fmt.Sprintf("lit-%d\n", lit)), 0644)
+									os.Chtimes(f, time.Now().Add(time.Hour), time.Now().Add(time.Hour))
+									r.emitFile(sp.Path, lit, "same-content rewrite")
+								}
+							}
+						}
+						o3 := r.build(label, "build", nil, "", "rebuild after cosmetic edits")
+						if o3.Kind == "build" && len(o3.Ran) != 0 {
+							r.oracle("C02 comment/whitespace edits of build files and same-content rewrites of sources re-executed %v", o3.Ran)
+						}
 					}
 				}
 			}
